@@ -231,6 +231,33 @@ func (c *FnCtx) libCallbackEffects(cc *ssa.CallCommon) {
 	for _, a := range cc.Args {
 		if mc := asClosure(a); mc != nil {
 			cf := mc.Fn.(*ssa.Function)
+			// bound-method closure of a method with a precise modifies clause: havoc only those locations
+			if strings.HasSuffix(cf.Name(), "$bound") && len(mc.Bindings) == 1 {
+				if obj, ok := cf.Object().(*types.Func); ok {
+					if m := c.V.Prog.FuncValue(obj); m != nil {
+						if mcon := c.V.contractOf(m); mcon != nil && mcon.HasMod && len(m.Params) >= 1 {
+							env := &SEnv{c: c, st: st, old: st, vars: map[string]Val{m.Params[0].Name(): c.val(mc.Bindings[0])}, bound: map[string]bool{}}
+							okAll := true
+							func() {
+								defer func() {
+									if rec := recover(); rec != nil {
+										okAll = false
+									}
+								}()
+								for _, me := range mcon.Modifies {
+									c.applyMod(env, me, st)
+								}
+							}()
+							if okAll {
+								na := c.freshConst("alloc@cb", SInt)
+								c.assume(c.curItems, sx("<=", st.alloc, na))
+								st.alloc = na
+								continue
+							}
+						}
+					}
+				}
+			}
 			for n := range c.V.ModSets[cf] {
 				mods[n] = true
 			}
@@ -915,4 +942,145 @@ func (c *FnCtx) instantiateClosure(mc *ssa.MakeClosure, ar applyRec, st *State) 
 		c.assume(c.curItems, f)
 	}
 	c.note("closure link: " + target.Name() + " is assumed side-effect free and its postcondition is used for the application of the closure")
+}
+
+// frameCheck: a function with a declared `modifies` clause must not change anything else.
+//
+//	(a) every heap array in its syntactic modification set must be named by the clause;
+//	(b) for a location NAME[idx] / x.f the rest of the array is unchanged at every return.
+func (c *FnCtx) frameCheck(x *ssa.Return) {
+	con := c.con
+	if con == nil || !con.HasMod {
+		return
+	}
+	declared := map[string][]Expr{}
+	for _, m := range con.Modifies {
+		for _, n := range c.V.modExprArrays(m, c.fn) {
+			declared[n] = append(declared[n], m)
+		}
+	}
+	computed := c.V.ModSets[c.fn]
+	for n := range computed {
+		if n == "*" {
+			continue
+		}
+		if _, ok := declared[n]; !ok {
+			ob := c.assert(c.curItems, "frame", "frame:"+n, "", "false", x, nil, true)
+			ob.Text = "array " + n + " may be modified but is not listed in the modifies clause"
+		}
+	}
+	for n, ms := range declared {
+		if !c.ensureArr(n) {
+			continue
+		}
+		cur, old := c.arrIn(c.cur, n), c.arrIn(c.entry, n)
+		if cur == old {
+			continue
+		}
+		if f, ok := c.frameFormula(n, ms, c.cur); ok {
+			ob := c.assert(c.curItems, "frame", "frame:"+n, "", f, x, nil, true)
+			ob.Text = "only the listed locations of " + n + " change"
+		}
+		continue
+		// indices that may change
+		whole := false
+		var idxs []string
+		env := c.specEnvFor(c.entry, c.entry, nil)
+		for _, m := range ms {
+			switch e := m.(type) {
+			case *EIdent:
+				whole = true
+			case *EIndex:
+				idxs = append(idxs, env.tr(e.I).T)
+			case *ESel:
+				idxs = append(idxs, env.tr(e.X).T)
+			case *ECall:
+				if id, ok := e.Fun.(*EIdent); ok && (id.Name == "mapof" || id.Name == "elems") {
+					v := env.tr(e.Args[0])
+					if id.Name == "elems" {
+						idxs = append(idxs, sx("sref", v.T))
+					} else {
+						idxs = append(idxs, v.T)
+					}
+				} else {
+					whole = true
+				}
+			default:
+				whole = true
+			}
+		}
+		if whole {
+			continue
+		}
+		var neq []string
+		for _, ix := range idxs {
+			neq = append(neq, sNot(sEq("fr_r", ix)))
+		}
+		// objects allocated during the call are not covered by the frame
+		neq = append(neq, sx("<", "fr_r", c.entry.alloc))
+		idxSort := "Int"
+		f := fmt.Sprintf("(forall ((fr_r %s)) %s)", idxSort, sImp(sAnd(neq...), sEq(sSel(cur, "fr_r"), sSel(old, "fr_r"))))
+		if !strings.HasPrefix(string(c.arrSorts[n]), "(Array Int ") {
+			continue
+		}
+		ob := c.assert(c.curItems, "frame", "frame:"+n, "", f, x, nil, true)
+		ob.Text = "only the listed locations of " + n + " change"
+	}
+}
+
+// frameFormula: "outside the declared locations, array n is as at function entry" in state st.
+func (c *FnCtx) frameFormula(n string, ms []Expr, st *State) (string, bool) {
+	if !strings.HasPrefix(string(c.arrSorts[n]), "(Array Int ") {
+		return "", false
+	}
+	var idxs []string
+	env := c.specEnvFor(c.entry, c.entry, nil)
+	for _, m := range ms {
+		switch e := m.(type) {
+		case *EIndex:
+			idxs = append(idxs, env.tr(e.I).T)
+		case *ESel:
+			idxs = append(idxs, env.tr(e.X).T)
+		case *ECall:
+			id, ok := e.Fun.(*EIdent)
+			if !ok {
+				return "", false
+			}
+			v := env.tr(e.Args[0])
+			switch id.Name {
+			case "elems":
+				idxs = append(idxs, sx("sref", v.T))
+			case "mapof":
+				idxs = append(idxs, v.T)
+			default:
+				return "", false
+			}
+		default:
+			return "", false
+		}
+	}
+	var neq []string
+	for _, ix := range idxs {
+		neq = append(neq, sNot(sEq("fr_r", ix)))
+	}
+	if _, isGhost := c.V.DB.Ghosts[n]; !isGhost || n == "TMD" || n == "TMV" || n == "OUTLEN" || n == "OUTEV" {
+		// arrays indexed by references: objects allocated during the call are outside the frame
+		neq = append(neq, sx("<", "fr_r", c.entry.alloc))
+	}
+	cur, old := c.arrIn(st, n), c.arrIn(c.entry, n)
+	return fmt.Sprintf("(forall ((fr_r Int)) %s)", sImp(sAnd(neq...), sEq(sSel(cur, "fr_r"), sSel(old, "fr_r")))), true
+}
+
+// declaredMods groups the modifies clause of the function under verification by heap array.
+func (c *FnCtx) declaredMods() map[string][]Expr {
+	declared := map[string][]Expr{}
+	if c.con == nil || !c.con.HasMod {
+		return declared
+	}
+	for _, m := range c.con.Modifies {
+		for _, n := range c.V.modExprArrays(m, c.fn) {
+			declared[n] = append(declared[n], m)
+		}
+	}
+	return declared
 }
